@@ -54,7 +54,7 @@ func setupC05(x *Ctx) {
 		}
 	}
 	// a reset between "connection object created, pumps running" and "registered"
-	if x.Chance("cut-at-register", 0.12) {
+	if x.Feat(FeatCutAtRegister) && x.Chance("cut-at-register", 0.12) {
 		k := 1 + x.Choose("cut-at-register-k", 4)
 		stall := x.Chance("stall-at-register", 0.5)
 		r.atRegister = func(node string, n int) {
@@ -70,8 +70,12 @@ func setupC05(x *Ctx) {
 	}
 	nDist := x.Biased("disturbances", 5, 0.35)
 	var dist []string
+	kinds := c05Disturb
+	if !x.Feat(FeatCrash) {
+		kinds = c05Disturb[:7]
+	}
 	for i := 0; i < nDist; i++ {
-		dist = append(dist, c05Disturb[x.Choose("disturbance", len(c05Disturb))])
+		dist = append(dist, kinds[x.Choose("disturbance", len(kinds))])
 	}
 	x.SigAdd(fmt.Sprintf("lat=%v", lat), fmt.Sprintf("mdns=%v", mdnsDelay), fmt.Sprintf("regBefore=%v", regBeforeStart), fmt.Sprintf("dist=%v cut=%d/%d", dist, cutConn, cutChunk))
 
